@@ -57,7 +57,7 @@ def gen_case(rng, tier):
                 case["dynstep"] = True
         return case
     mode = rng.choice(["static", "minimalloc", "minimalloc", "auto", "dynamic"])
-    ast = AG.AllocGen(rng, views=rng.random() < 0.7, two_mem=rng.random() < 0.2 and mode != "dynamic", odd_align=rng.random() < 0.3 and mode != "dynamic").program(callee=rng.random() < 0.15)
+    ast = AG.AllocGen(rng, views=rng.random() < 0.7, two_mem=rng.random() < 0.2 and mode != "dynamic", odd_align=rng.random() < 0.3 and mode != "dynamic", dyn_allocs=rng.choice([0, 0, 0.4]) if mode == "auto" else 0).program(callee=rng.random() < 0.15)
     return {
         "fam": "place",
         "ast": ast,
@@ -223,6 +223,21 @@ def run_place(case, out):
     except Rejected as r:
         out["status"] = "rejected"
         out["rejected"] = f"{r.stage}:{r.cls}"
+        return out
+    # one owner per memory: either the compiler hands out the addresses of L1 or the run-time (bump) allocator does - both start
+    # at the base of the memory and do not know of each other
+    rt_calls = sum(1 for o in mod.walk() if o.name == "func.call" and o.callee.string_value() == "snax_alloc_l1")
+    still_open = sum(1 for o in mod.walk() if o.name == "snax.alloc" and str(o.memory_space) == '"L1"')
+    placed = sum(1 for o in mod.walk() if o.name == "llvm.inttoptr" and o.input.owner.name == "arith.constant") if hasattr(mod, "walk") else 0
+    if rt_calls and placed:
+        out.update(status="violation", oracle="two-owners", message=f"{placed} buffer(s) are placed at compile-time addresses while {rt_calls} other(s) come from the run-time allocator of the same memory")
+        return out
+    if any(s_.get("dyn") for s_ in _walk(case["ast"]["body"])):
+        # programs with a buffer of run-time size are judged by the static oracle only
+        out["probes"]["mixed-sizes-static-oracle-only"] = 1
+        out["probes"]["mode-" + case["mode"]] = 1
+        out["nontrivial"] = bool(rt_calls)
+        out["digest"] = digest_of(rt_calls, placed, still_open)
         return out
     m = AllocMachine(mod, rt_base=case["window"][0], rt_slack=0)
     try:
